@@ -213,4 +213,32 @@ func init() {
 	also("C05", "(htr.computed) every HashTreeRoot return is computed with the hash function or is the receiver's own bytes, never a constant.", "htr.computed")
 	also("C19", "(numeric.signed) time and slot differences are taken unsigned behind an ordering test, never through a signed conversion that is wrong beyond half the range.", "numeric.signed")
 	also("C02", "(numeric.signed) as C19.", "numeric.signed")
+	also("C07", fdoc+" the randao mix a seed is taken from: epoch + EPOCHS_PER_HISTORICAL_VECTOR - MIN_SEED_LOOKAHEAD - 1.", "formula.spec@common.GetSeed")
+	also("C06", "(formula.spec@common.GetSeed) as C07.", "formula.spec@common.GetSeed")
+	const fadoc = "(filter.all) a query with several optional criteria applies every one that is set: each accepting place of the reviewed search functions, and of the predicates they hand their criteria to, is reached only after all criteria were looked at."
+	also("C11", fadoc, "filter.all")
+	also("C20", fadoc, "filter.all")
+	const edoc = "(effect.always) every effect (state-changing call, context poll, store into the receiver) that lay on every path to success in a function of the reviewed tree still does: no early success return goes round it."
+	forkPk := "phase0.|altair.|bellatrix.|capella.|deneb.|electra."
+	also("C01", edoc, "effect.always@"+forkPk+"|common.ProcessSlots|common.StateTransition|common.PostSlotTransition|beacon.")
+	also("C02", edoc, "effect.always@"+forkPk+"|common.ProcessSlots|common.EpochsContext|beacon.")
+	also("C03", edoc, "effect.always@"+forkPk+"|common.")
+	also("C05", edoc+" (setters store what they are given)", "effect.always@"+forkPk+"|common.")
+	also("C07", edoc, "effect.always@common.")
+	also("C08", edoc, "effect.always@common.EpochsContext|common.PubkeyCache|common.ProcessSlots|"+forkPk)
+	also("C09", edoc, "effect.always@proto.|forkchoice.")
+	also("C10", edoc, "effect.always@proto.|forkchoice.")
+	also("C11", edoc, "effect.always@proto.|forkchoice.")
+	also("C13", edoc, "effect.always@phase0.")
+	also("C15", edoc+" (setters store what they are given)", "effect.always@"+forkPk+"|common.")
+	also("C16", edoc, "effect.always@common.PubkeyCache|phase0.ProcessDeposit")
+	also("C17", edoc, "effect.always@pool.|forkchoice.|common.PubkeyCache")
+	also("C18", edoc+" (the context is polled on every path to success where it was)", "effect.always@"+forkPk+"|common.")
+	also("C17", "(lock.recv) every method of a mutex-carrying type has a pointer receiver (a value receiver locks a copy).", "lock.recv")
+	also("C20", "(lock.recv) as C17.", "lock.recv")
+	also("C04", "(tag.unique) the json / yaml names of a struct's fields are unique (a duplicate drops both from the text form).", "tag.unique")
+	also("C19", "(global.hasher) the package-level Hash is the stateless sha256.Sum256, not a digest object shared by every caller.", "global.hasher")
+	also("C05", "(lit.copy) a conversion between the struct forms of one SSZ object (blinded / full body) copies every field the two forms share.", "lit.copy")
+	also("C01", "(fork.registry) the chain of fork upgrades applies every upgrade that is due at a slot (two forks scheduled for one epoch are both applied).", "fork.registry")
+	also("C16", "(lock.atomic@PubkeyCache) an append that lost the race for an index re-decides under the lock instead of reporting the other writer's pair as its own.", "lock.atomic@common.PubkeyCache")
 }
